@@ -46,7 +46,8 @@ type altObject struct {
 	// try parses and verifies a variant: parsed=false if parsing failed;
 	// otherwise the signed part and signature as parsed, and whether any of
 	// the library's signature checks accepted it.
-	try func(variant []byte) (parsed bool, tbs, sig []byte, verified bool)
+	// alg: the signature algorithm the parser derived from the variant.
+	try func(variant []byte) (parsed bool, tbs, sig []byte, verified bool, alg x509.SignatureAlgorithm)
 }
 
 func richCertTemplate(rich int, seed uint64) *x509.Certificate {
@@ -115,14 +116,14 @@ func buildAltObjectOnce(c altCase) (*altObject, error) {
 		if err != nil {
 			return nil, fmt.Errorf("CreateCertificate: %v", err)
 		}
-		return &altObject{der: der, try: func(v []byte) (bool, []byte, []byte, bool) {
+		return &altObject{der: der, try: func(v []byte) (bool, []byte, []byte, bool, x509.SignatureAlgorithm) {
 			crt, err := smx509.ParseCertificate(v)
 			if err != nil {
-				return false, nil, nil, false
+				return false, nil, nil, false, 0
 			}
 			ok := crt.CheckSignatureFrom(iss.cert) == nil ||
 				iss.cert.CheckSignature(crt.SignatureAlgorithm, crt.RawTBSCertificate, crt.Signature) == nil
-			return true, crt.RawTBSCertificate, crt.Signature, ok
+			return true, crt.RawTBSCertificate, crt.Signature, ok, crt.SignatureAlgorithm
 		}}, nil
 	case altCSR, altCFCA:
 		cc := csrCase{Seed: c.Seed, KT: c.KT, AlgVariant: int(c.Seed % 4), Subject: []attrSpec{{Kind: 8, Vals: []string{"altered request"}}}}
@@ -143,21 +144,21 @@ func buildAltObjectOnce(c altCase) (*altObject, error) {
 		if err != nil {
 			return nil, fmt.Errorf("request creation: %v", err)
 		}
-		return &altObject{der: der, try: func(v []byte) (bool, []byte, []byte, bool) {
+		return &altObject{der: der, try: func(v []byte) (bool, []byte, []byte, bool, x509.SignatureAlgorithm) {
 			var req *smx509.CertificateRequest
 			if c.Obj == altCFCA {
 				cf, err := smx509.ParseCFCACertificateRequest(v)
 				if err != nil {
-					return false, nil, nil, false
+					return false, nil, nil, false, 0
 				}
 				req = &cf.CertificateRequest
 			} else {
 				var err error
 				if req, err = smx509.ParseCertificateRequest(v); err != nil {
-					return false, nil, nil, false
+					return false, nil, nil, false, 0
 				}
 			}
-			return true, req.RawTBSCertificateRequest, req.Signature, req.CheckSignature() == nil
+			return true, req.RawTBSCertificateRequest, req.Signature, req.CheckSignature() == nil, req.SignatureAlgorithm
 		}}, nil
 	case altCRL:
 		cc := crlCase{Seed: c.Seed, KT: c.KT, AlgVariant: int(c.Seed % 4), IssuerKU: 96, Number: h.B{1, 2, 3}, ThisOff: -3600, NextDelta: 7200}
@@ -171,14 +172,14 @@ func buildAltObjectOnce(c altCase) (*altObject, error) {
 		if err != nil {
 			return nil, err
 		}
-		return &altObject{der: der, try: func(v []byte) (bool, []byte, []byte, bool) {
+		return &altObject{der: der, try: func(v []byte) (bool, []byte, []byte, bool, x509.SignatureAlgorithm) {
 			rl, err := smx509.ParseRevocationList(v)
 			if err != nil {
-				return false, nil, nil, false
+				return false, nil, nil, false, 0
 			}
 			ok := rl.CheckSignatureFrom(iss.cert) == nil ||
 				iss.cert.CheckSignature(rl.SignatureAlgorithm, rl.RawTBSRevocationList, rl.Signature) == nil
-			return true, rl.RawTBSRevocationList, rl.Signature, ok
+			return true, rl.RawTBSRevocationList, rl.Signature, ok, rl.SignatureAlgorithm
 		}}, nil
 	}
 	return nil, fmt.Errorf("harness: bad object kind")
@@ -232,7 +233,8 @@ func checkAlteration(c altCase, r *h.Rec) error {
 		return fmt.Errorf("created object is not a DER SEQUENCE{tbs, alg, BIT STRING}: %v (der=%s)", err, h.Hex(der))
 	}
 	// the unaltered object must parse and verify, else everything below is vacuous
-	if p, tbs, sig, ok := obj.try(append([]byte{}, der...)); !p || !ok || !bytes.Equal(tbs, so.tbs) || !bytes.Equal(sig, so.sig) {
+	p, tbs, sig, ok, origAlg := obj.try(append([]byte{}, der...))
+	if !p || !ok || !bytes.Equal(tbs, so.tbs) || !bytes.Equal(sig, so.sig) {
 		return fmt.Errorf("the unaltered object does not parse and verify (parsed=%v verified=%v) (der=%s)", p, ok, h.Hex(der))
 	}
 	stride := 1
@@ -274,7 +276,7 @@ func checkAlteration(c altCase, r *h.Rec) error {
 		for _, v := range substitutions(der[pos], c.Full, c.Seed, pos, extra...) {
 			copy(variant, der)
 			variant[pos] = v
-			parsed, tbs, sig, verified := obj.try(variant)
+			parsed, tbs, sig, verified, alg := obj.try(variant)
 			switch {
 			case !parsed:
 				nParseFail++
@@ -298,8 +300,13 @@ func checkAlteration(c altCase, r *h.Rec) error {
 			case !bytes.Equal(tbs, so.tbs) || !bytes.Equal(sig, so.sig):
 				return fmt.Errorf("%s signed by %s: byte %d changed %02x -> %02x; the object parses with a different signed part or signature and still verifies (original der=%s)",
 					altObjNames[c.Obj], keyTypeNames[c.KT], pos, der[pos], v, h.Hex(der))
+			case alg != origAlg:
+				// the (unsigned) outer AlgorithmIdentifier of a request was changed into
+				// another algorithm and the signature made with the original one is accepted
+				return fmt.Errorf("%s signed by %s: byte %d changed %02x -> %02x; the object now declares %v instead of %v and its signature still verifies (original der=%s)",
+					altObjNames[c.Obj], keyTypeNames[c.KT], pos, der[pos], v, algName(alg), algName(origAlg), h.Hex(der))
 			default:
-				nBenign++ // outside the signed part and the signature, both parsed unchanged
+				nBenign++ // outside the signed part and the signature, both parsed unchanged, same algorithm
 			}
 		}
 	}
